@@ -253,6 +253,9 @@ func parseJSONString(s string) (string, bool, error) {
 }
 
 func parseNumber(s string) (any, bool) {
+	if !isDecimal(s) {
+		return nil, false // e.g. "1e3", "0x10", "Inf", "NaN": not numbers here
+	}
 	z, err := strconv.ParseInt(s, 10, 64)
 	if err == nil {
 		return z, true
@@ -262,6 +265,29 @@ func parseNumber(s string) (any, bool) {
 		return v, true
 	}
 	return nil, false
+}
+
+// isDecimal reports whether s consists of decimal digits with an optional
+// leading sign and at most one decimal point, the only number syntax that
+// ParseQuery documents. In particular this excludes the exponent, hexadecimal,
+// underscore, infinity and NaN forms that strconv.ParseFloat also accepts; the
+// last two are not even representable in JSON.
+func isDecimal(s string) bool {
+	if s != "" && (s[0] == '+' || s[0] == '-') {
+		s = s[1:]
+	}
+	digits, points := 0, 0
+	for i := 0; i < len(s); i++ {
+		switch {
+		case s[i] >= '0' && s[i] <= '9':
+			digits++
+		case s[i] == '.':
+			points++
+		default:
+			return false
+		}
+	}
+	return digits > 0 && points <= 1
 }
 
 func parseConstant(s string) (any, bool) {
